@@ -376,6 +376,58 @@ func collectPanicSites(w *World, f *ssa.Function) []panicSite {
 			}
 		}
 	}
+	// (g) an interface variable filled through the out-parameter of UnpackAny stays nil for a nil / empty Any
+	// (UnpackAny returns nil then): a method invoked on it panics unless the variable was tested
+	for _, b := range f.Blocks {
+		for _, in := range b.Instrs {
+			call, ok := in.(ssa.CallInstruction)
+			if !ok {
+				continue
+			}
+			c, okc := CalleeOf(call.Common())
+			if !okc || c.Name != "UnpackAny" {
+				continue
+			}
+			args := call.Common().Args
+			if len(args) < 2 {
+				continue
+			}
+			var slot *ssa.Alloc
+			switch x := args[len(args)-1].(type) {
+			case *ssa.Alloc:
+				slot = x
+			case *ssa.MakeInterface:
+				slot, _ = x.X.(*ssa.Alloc)
+			}
+			if slot == nil || !types.IsInterface(derefType(slot.Type())) {
+				continue
+			}
+			n := 0
+			for _, r := range *slot.Referrers() {
+				ld, isLd := r.(*ssa.UnOp)
+				if !isLd || ld.Op != token.MUL {
+					continue
+				}
+				for _, u := range *ld.Referrers() {
+					inv, isInv := u.(ssa.CallInstruction)
+					if !isInv || !inv.Common().IsInvoke() || inv.Common().Value != ssa.Value(ld) {
+						continue
+					}
+					n++
+					s := panicSite{class: "nil-iface", desc: "method " + inv.Common().Method.Name() + " on the interface filled by UnpackAny(" + fieldDesc(args[len(args)-2]) + ")", pos: inv.Pos()}
+					for _, fct := range FactsAt(inv) {
+						if fct.Kind == FNonNil && fct.V != nil {
+							if fl, isL := fct.V.(*ssa.UnOp); isL && fl.X == ssa.Value(slot) {
+								s.ok, s.why = true, "the unpacked value is tested against nil first"
+							}
+						}
+					}
+					add(s)
+				}
+			}
+			_ = n
+		}
+	}
 	// (e) parallel-slice indexing: B[i] inside `for i := range A` with B a different slice
 	out = append(out, parallelIndexSites(w, f)...)
 	// (f) decremented index a[x-k]: needs a dominating lower bound on x or on a length
